@@ -231,7 +231,8 @@ CONTRACTS = {
         "file": F_WD, "receivers": ["SimpleWatchdog"], "inv": True, "params": {},
         "modifies": ["self._lastEpochsPrintTime", "g_warns"],
         "loops": {0: {"inv": {"warning count fixed inside the epoch loop": "g_warns == old(g_warns) + 1",
-                               "print time fixed inside the epoch loop": "self._lastEpochsPrintTime == now"}}},
+                               "print time fixed inside the epoch loop": "self._lastEpochsPrintTime == now"},
+                      "unconstrained_ok": ["prev"]}},      # only formatted into the log text
         "ensures": {
             "C19.W2 the overrun warning is emitted iff expired and more than one second after the previous one":
                 "(g_warns > old(g_warns)) == (g_now > self._expirationTime and g_now - old(self._lastEpochsPrintTime) > 1000000)",
